@@ -210,7 +210,7 @@ func init() {
 		NotDecided:  "placeholder location across run boundaries (byte offsets), row expansion contents, which run's formatting a value inherits",
 		Rules: []Rule{
 			{"clone-cover/map", "clone functions cover every field (object groups over access paths)", ruleCloneDocument},
-			{"raw-xml", "values spliced into header/footer XML are escaped", ruleRawXML},
+			{"raw-xml", "values spliced into header/footer XML are escaped", ruleRawXMLSplice},
 			{"closure-ret", "unknown variables stay", ruleClosureRet},
 		},
 		Assumptions: commonAssumptions,
